@@ -256,6 +256,18 @@ impl XFuncSpec {
         for (arg, param) in args.iter().zip(self.params.iter()) {
             ret = ret.mix(&param.type_.bind_in_assignment(arg)?)?;
         }
+        // only the function's own generic parameters may be bound by a call; generics of an
+        // enclosing function are opaque
+        let foreign = Bind::from_iter(ret.iter().filter_map(|(k, v)| {
+            let own = self
+                .generic_params
+                .as_ref()
+                .map_or(false, |params| params.contains(k));
+            (!own).then(|| (*k, v.clone()))
+        }));
+        if !foreign.is_empty() {
+            return None;
+        }
         Some(ret)
     }
 
